@@ -112,6 +112,27 @@ func funcValue(v ssa.Value) *ssa.Function {
 	case *ssa.MakeClosure:
 		f, _ := x.Fn.(*ssa.Function)
 		return f
+	case *ssa.Call:
+		// a factory: a module function whose single return hands out a closure or function
+		g := x.Call.StaticCallee()
+		if g == nil || g.Blocks == nil || !isModFn(g) {
+			return nil
+		}
+		var out *ssa.Function
+		n := 0
+		eachInstr(g, func(_ *ssa.BasicBlock, _ int, in ssa.Instruction) {
+			if ret, ok := in.(*ssa.Return); ok {
+				n++
+				if vals := returnedValues(ret); len(vals) == 1 {
+					if _, isCall := stripConv(vals[0]).(*ssa.Call); !isCall {
+						out = funcValue(vals[0])
+					}
+				}
+			}
+		})
+		if n == 1 {
+			return out
+		}
 	}
 	return nil
 }
